@@ -215,9 +215,11 @@ class Mode:
             if st == "discharged":
                 return self._rec(name, "discharged", "z3", dt, detail=detail)
             if st == "failed":
-                return self._rec(name, "failed", "z3", dt, detail=detail, cex={"env": model})
+                real = P.numeric_counterexample(path.formulas(), concl, model)
+                return self._rec(name, "failed", "z3", dt, detail=detail, cex={"env": real if real is not None else model,
+                                 "solver_model": model, "validated_with_true_functions": real is not None})
             return self._rec(name, "undecided", "z3", dt, detail="solver unknown: " + detail)
-        if self.wanted is not None and name != self.wanted:
+        if self.wanted is not None and _nopath(name) != _nopath(self.wanted):
             return None
         ok = self._evalf(concl)
         return self._rec(name, "discharged" if ok else "failed", "run", 0.0, detail=detail)
@@ -241,7 +243,7 @@ class Mode:
             if r != "sat":
                 return self._rec(name, "undecided", "z3", dt, detail="region feasibility unknown and values differ")
             return self._rec(name, "failed", "z3+polyid", time.time() - t, cex={"env": model}, got=alg.fmt(vg, 8), exp=alg.fmt(ve, 8))
-        if self.wanted is not None and name != self.wanted:
+        if self.wanted is not None and _nopath(name) != _nopath(self.wanted):
             return None
         if not self._evalf(cond):
             return self._rec(name, "discharged", "run", 0.0, detail="case does not apply at this input")
@@ -277,6 +279,12 @@ class Mode:
                              detail="raised %s instead of %s: %s" % (type(e).__name__, excs, e))
         return self._rec(name, "failed", "run", 0.0, detail="did not raise " + detail,
                          cex={"env": {k: str(v) for k, v in self.env.items()}})
+
+
+def _nopath(name):
+    import re
+
+    return re.sub(r"/path\d+/", "/path*/", name)
 
 
 def _num(x):
@@ -372,6 +380,8 @@ def _symbols_in(v, depth=0):
                 out |= _symbols_in(C.expsyms[s], depth + 1)
             elif s in C.boysinfo:
                 out |= _symbols_in(C.boysinfo[s][1], depth + 1)
+            elif C.kinds[s] == "gsq":
+                out |= _symbols_in([a for t, a in C.gsq if t == s][0], depth + 1)
             else:
                 for t, a in C.logs:
                     if t == s:
